@@ -74,7 +74,7 @@ std::string gen_name(vf::Tape& t, Feat& ft)
     {
     case 0: return (t.data().size() % 2) ? "name" : "#name that starts like a comment line";
     case 1: ft.odd_name = true; return "";
-    case 2: ft.odd_name = true; return "with inner blanks";
+    case 2: ft.odd_name = true; return (t.data().size() % 2) ? "with inner blanks" : "$p_T(\\bar\\nu)$ \\nabla: backslash followed by n";
     case 3: ft.odd_name = true; return "   leading blanks";
     case 4: ft.odd_name = true; return "trailing blanks   ";
     case 5: return std::string(1 + t.range(0, 300), 'y');
